@@ -75,7 +75,7 @@ func TestVerifC18Startup(t *testing.T) {
 	healthy := []string{"udp", "tcp", "gnet", "http", "fasthttp", "tls", "https", "quic"}
 	failing := []string{"port-in-use", "missing-cert", "unknown-protocol", "bad-listen-address"}
 	rep.Rule = fmt.Sprintf("real run() on loopback: 3-server configurations with one failing entry %v at index 0,1,2 and the other two entries drawn (rotating) from the healthy kinds %v; plus every healthy kind alone, closed twice; "+
-		"oracle: run() returns an error without panicking, no listening socket of the healthy entries is left in the process afterwards (own-fd x /proc/net LISTEN/UDP check); a healthy router's close() is idempotent and frees its ports, also with a request in flight against a silent upstream (udp, tcp, gnet, http, fasthttp); distinct = distinct configurations", failing, healthy)
+		"oracle: run() returns an error without panicking, no listening socket of the healthy entries is left in the process afterwards (own-fd x /proc/net LISTEN/UDP check); a healthy router's close() is idempotent and frees its ports, also with a request in flight against a silent upstream (udp, tcp, gnet, http, fasthttp), where it returns without waiting for the request's deadline (fastest of 3 attempts under 3 s); distinct = distinct configurations", failing, healthy)
 	if sh, _ := report.Shard(); sh != 0 {
 		rep.Eval("idle-shard")
 		rep.Eval("idle-shard2")
@@ -198,67 +198,76 @@ func TestVerifC18Startup(t *testing.T) {
 			}
 		}()
 		for _, kind := range []string{"udp", "tcp", "gnet", "http", "fasthttp"} {
-			port := c18FreePort()
-			cfg := &Config{Servers: []ServerConfig{mkServer(kind, port)},
-				Upstreams: []UpstreamConfig{{Tag: "u", Addr: "tcp://" + silent.Addr().String()}}, Rules: []RuleConfig{{Forward: "u"}}}
-			desc := "close with a request in flight, listener " + kind
-			rep.Eval(desc)
-			r, err, p := runCfg(cfg)
-			if p != nil || err != nil {
-				rep.Violate("C18:startup:healthy-config-failed:"+kind, fmt.Sprintf("%v %v", err, p), nil)
-				continue
-			}
-			q := []byte{0x12, 0x34, 1, 0, 0, 1, 0, 0, 0, 0, 0, 0, 1, 'a', 0, 0, 1, 0, 1}
-			addr := fmt.Sprintf("127.0.0.1:%d", port)
-			var cc net.Conn
-			switch kind {
-			case "udp":
-				cc, _ = net.Dial("udp", addr)
+			// "promptly": a close that fails the in-flight request returns in a fraction of a second; one that waits for the request
+			// returns when the request's 6 s deadline fires. The measurement is repeated (up to 3 attempts) and the fastest counts,
+			// so that a slow machine cannot turn into an alarm.
+			fastest := time.Duration(-1)
+			for attempt := 0; attempt < 3 && (fastest < 0 || fastest > 3*time.Second); attempt++ {
+				port := c18FreePort()
+				cfg := &Config{Servers: []ServerConfig{mkServer(kind, port)},
+					Upstreams: []UpstreamConfig{{Tag: "u", Addr: "tcp://" + silent.Addr().String()}}, Rules: []RuleConfig{{Forward: "u"}}}
+				desc := "close with a request in flight, listener " + kind
+				rep.Eval(desc)
+				r, err, p := runCfg(cfg)
+				if p != nil || err != nil {
+					rep.Violate("C18:startup:healthy-config-failed:"+kind, fmt.Sprintf("%v %v", err, p), nil)
+					continue
+				}
+				q := []byte{0x12, 0x34, 1, 0, 0, 1, 0, 0, 0, 0, 0, 0, 1, 'a', 0, 0, 1, 0, 1}
+				addr := fmt.Sprintf("127.0.0.1:%d", port)
+				var cc net.Conn
+				switch kind {
+				case "udp":
+					cc, _ = net.Dial("udp", addr)
+					if cc != nil {
+						cc.Write(q)
+					}
+				case "tcp", "gnet":
+					cc, _ = net.DialTimeout("tcp", addr, 3*time.Second)
+					if cc != nil {
+						cc.Write(append([]byte{0, byte(len(q))}, q...))
+					}
+				default:
+					cc, _ = net.DialTimeout("tcp", addr, 3*time.Second)
+					if cc != nil {
+						fmt.Fprintf(cc, "POST /dns-query HTTP/1.1\r\nHost: x\r\nContent-Type: application/dns-message\r\nContent-Length: %d\r\n\r\n%s", len(q), q)
+					}
+				}
+				time.Sleep(300 * time.Millisecond) // the request is now waiting for the silent upstream
+				done := make(chan any, 1)
+				t0 := time.Now()
+				go func() {
+					defer func() { done <- recover() }()
+					r.close(nil)
+					r.close(nil)
+				}()
+				select {
+				case p := <-done:
+					if p != nil {
+						rep.Violate("C18:close-inflight:panic:"+kind, fmt.Sprint(p), nil)
+					}
+					if d := time.Since(t0); fastest < 0 || d < fastest {
+						fastest = d
+					}
+				case <-time.After(60 * time.Second):
+					rep.Violate("C18:close-inflight:blocks:"+kind, "router close did not return within 60 s while a request was in flight", nil)
+				}
 				if cc != nil {
-					cc.Write(q)
+					cc.Close()
 				}
-			case "tcp", "gnet":
-				cc, _ = net.DialTimeout("tcp", addr, 3*time.Second)
-				if cc != nil {
-					cc.Write(append([]byte{0, byte(len(q))}, q...))
+				tb := time.Now()
+				freed := false
+				for i := 0; i < 8 && !freed; i++ { // up to ~40 s
+					freed = c18CanBind(kind, port)
 				}
-			default:
-				cc, _ = net.DialTimeout("tcp", addr, 3*time.Second)
-				if cc != nil {
-					fmt.Fprintf(cc, "POST /dns-query HTTP/1.1\r\nHost: x\r\nContent-Type: application/dns-message\r\nContent-Length: %d\r\n\r\n%s", len(q), q)
+				if !freed {
+					rep.Violate("C18:close-inflight:port-leaked:"+kind, fmt.Sprintf("after close the %s listener on port %d is still bound (waited %v)", kind, port, time.Since(tb)), nil)
+				} else if d := time.Since(tb); d > 3*time.Second {
+					rep.Note(fmt.Sprintf("%s listener port was released %v after close returned", kind, d))
 				}
 			}
-			time.Sleep(300 * time.Millisecond) // the request is now waiting for the silent upstream
-			done := make(chan any, 1)
-			t0 := time.Now()
-			go func() {
-				defer func() { done <- recover() }()
-				r.close(nil)
-				r.close(nil)
-			}()
-			select {
-			case p := <-done:
-				if p != nil {
-					rep.Violate("C18:close-inflight:panic:"+kind, fmt.Sprint(p), nil)
-				}
-				if d := time.Since(t0); d > 20*time.Second {
-					rep.Violate("C18:close-inflight:slow:"+kind, fmt.Sprintf("router close took %v with one request in flight", d), nil)
-				}
-			case <-time.After(60 * time.Second):
-				rep.Violate("C18:close-inflight:blocks:"+kind, "router close did not return within 60 s while a request was in flight", nil)
-			}
-			if cc != nil {
-				cc.Close()
-			}
-			tb := time.Now()
-			freed := false
-			for i := 0; i < 8 && !freed; i++ { // up to ~40 s
-				freed = c18CanBind(kind, port)
-			}
-			if !freed {
-				rep.Violate("C18:close-inflight:port-leaked:"+kind, fmt.Sprintf("after close the %s listener on port %d is still bound (waited %v)", kind, port, time.Since(tb)), nil)
-			} else if d := time.Since(tb); d > 3*time.Second {
-				rep.Note(fmt.Sprintf("%s listener port was released %v after close returned", kind, d))
+			if fastest > 3*time.Second {
+				rep.Violate("C18:close-inflight:waits-for-request:"+kind, fmt.Sprintf("router close took %v (fastest of 3 attempts) with one request in flight against a silent upstream: it waits for the request to time out instead of failing it", fastest), nil)
 			}
 		}
 	}
